@@ -54,6 +54,13 @@ def uw_one(n, be, items=None, n2=None, extra=None):
         "sym::window_has_empty#0": nn + 1, "sym::window_has_empty#1": w + 1, "sym::chain_ok": g + 1,
         "sym::St": nn + 1,
     }
+    if n2 is None:
+        # no growth / rehash expected in this instance: these loops only exist on paths that are
+        # infeasible for the concrete counts; keep their unwinding minimal (an unwinding assertion
+        # reports it if such a path turns out to be feasible after all)
+        for k in ("RawTableInner::rehash_in_place", "RawTableInner::rehash_in_place.0", "RawTableInner::rehash_in_place.1",
+                  "RawTableInner::prepare_rehash_in_place", "RawTableInner::resize_inner"):
+            d[k] = 2
     if extra:
         d.update(extra)
     return d
@@ -99,32 +106,32 @@ def instances():
     T("c06_find_n16s", "c06::find::<16>(SYM, SYM)", 16, be=S16, tier="thorough", props=C6)
     T("c06_find_n32", "c06::find::<32>(SYM, SYM)", 32, tier="thorough", props=C6)
     T("c06_insert_n4", "c06::insert::<4, 4>(2, 0)", 4, items=2, props=C6, share_quick=('C18', 'C02'))
-    T("c06_insert_n4_grow", "c06::insert_full::<4, 8>(3, 0)", 4, n2=8, items=3, props=C6, covers="some")
-    T("c06_insert_n8", "c06::insert::<8, 8>(4, 0)", 8, items=4, props=C6)
+    T("c06_insert_n4_grow", "c06::insert_full::<4, 8>(3, 0)", 4, n2=8, items=3, props=C6, covers="some", be_quick=G8)
+    T("c06_insert_n8", "c06::insert::<8, 8>(4, 0)", 8, items=4, props=C6, be_quick=G8)
     T("c06_insert_n8_grow", "c06::insert_full::<8, 16>(7, 0)", 8, n2=16, items=7, props=C6, tier="thorough", timeout=7200, covers="some")
     T("c06_insert_n16", "c06::insert::<16, 16>(5, 3)", 16, be=G8, items=5, props=C6)
     T("c06_insert_n16_grow", "c06::insert_full::<16, 32>(8, 6)", 16, be=G8, n2=32, items=8, props=C6, tier="thorough", timeout=3600)
     T("c06_remove_n4", "c06::remove_reinsert::<4>(SYM, SYM, false)", 4, props=C6, covers="some", share_quick=('C02',))
     T("c06_remove_n8", "c06::remove_reinsert::<8>(SYM, SYM, false)", 8, props=C6, covers="some", share_quick=('C18', 'C02'))
-    T("c06_remove_reinsert_n8", "c06::remove_reinsert::<8>(SYM, SYM, true)", 8, props=C6, covers="some")
+    T("c06_remove_reinsert_n8", "c06::remove_reinsert::<8>(SYM, SYM, true)", 8, props=C6, covers="some", be_quick=G8)
     T("c06_remove_n16", "c06::remove_reinsert::<16>(SYM, SYM, false)", 16, be=G8, props=C6, timeout=1800)
     T("c06_remove_reinsert_n16", "c06::remove_reinsert::<16>(SYM, SYM, true)", 16, be=G8, props=C6, timeout=1800)
     T("c06_remove_n32s", "c06::remove_reinsert::<32>(SYM, SYM, false)", 32, be=S16, props=C6, tier="thorough", timeout=3600)
-    T("c06_entry_n4", "c06::entry::<4, 4>(2, 0)", 4, items=2)
-    T("c06_entry_n4_grow", "c06::entry::<4, 8>(3, 0)", 4, n2=8, items=3, covers="some")
-    T("c06_entry_n8", "c06::entry::<8, 8>(4, 0)", 8, items=4)
-    T("c06_reserve_n8_grow", "c06::reserve::<8, 16>(3, 0, 5)", 8, n2=16, items=3)
+    T("c06_entry_n4", "c06::entry::<4, 4>(2, 0)", 4, items=2, be_quick=G8)
+    T("c06_entry_n4_grow", "c06::entry::<4, 8>(3, 0)", 4, n2=8, items=3, covers="some", be_quick=G8)
+    T("c06_entry_n8", "c06::entry::<8, 8>(4, 0)", 8, items=4, be_quick=G8)
+    T("c06_reserve_n8_grow", "c06::reserve::<8, 16>(3, 0, 5)", 8, n2=16, items=3, be_quick=G8)
     # in-place rehash with element moves needs >= 2 groups (N=16 on g8); even with concrete occupancy,
     # ids and tags it takes > 25 min / > 14 GB: thorough tier only, generous limits (DESIGN section 12)
     T("c06_rehash_ct8_a", "c06::rehash_layout_ct8::<16>(0x0302, 0xF0FD & !0x0302, 0)", 16, be=G8, items=3, timeout=10800, mem_gb=44, tier="thorough", cost=100)
-    T("c06_shrink_n8_to4", "c06::shrink_to::<8, 4>(2, 0, 0)", 8, n2=4, items=2)
+    T("c06_shrink_n8_to4", "c06::shrink_to::<8, 4>(2, 0, 0)", 8, n2=4, items=2, be_quick=G8)
     T("c06_shrink_n8_empty", "c06::shrink_to::<8, 1>(0, 0, 0)", 8, items=0)
     T("c06_shrink_n8_empty_m3", "c06::shrink_to::<8, 4>(0, 0, 3)", 8, n2=4, items=0)
     T("c06_shrink_n8_noop", "c06::shrink_to::<8, 8>(5, 0, 2)", 8, items=5)
     T("c06_clear_n8", "c06::clear::<8>()", 8)
     T("c06_iter_hash_n4", "c06::iter_hash::<4>()", 4, covers="some")
-    T("c06_iter_hash_n8", "c06::iter_hash::<8>()", 8, covers="some")
-    T("c06_iter_hash_n16", "c06::iter_hash::<16>()", 16, be=G8, covers="some", timeout=1800)
+    T("c06_iter_hash_n8", "c06::iter_hash::<8>()", 8, covers="some", be_quick=G8)
+    T("c06_iter_hash_n16", "c06::iter_hash::<16>()", 16, be=G8, covers="some", timeout=1800, tier="thorough")
     for c in (0, 1, 3, 4, 7, 8, 14, 15, 28):
         T("c06_base_cap%d" % c, "c06::base_case::<%d>()" % c, 32, tier="quick" if c in (0, 3, 14) else "thorough", props=("C06", "C01", "C08"))
     # ------------------------------------------------------------------ C09 iterators
@@ -148,7 +155,7 @@ def instances():
     # ------------------------------------------------------------------ C01 HashMap steps
     C1 = ("C01", "C18")
     T("c01_lookup_n8", "c01::lookup::<8>()", 8, props=C1, share_quick=('C18',))
-    T("c01_lookup_n16", "c01::lookup::<16>()", 16, be=G8, props=C1)
+    T("c01_lookup_n16", "c01::lookup::<16>()", 16, be=G8, props=C1, tier="thorough", timeout=7200)
     T("c01_lookup_n4", "c01::lookup::<4>()", 4, be=G8, props=C1)
     T("c01_insert_n4", "c01::insert::<4, 4>(2, 0)", 4, items=2, be=G8, props=C1)
     T("c01_insert_n4_full", "c01::insert::<4, 8>(3, 0)", 4, n2=8, items=3, be=G8, props=C1, covers="some")
@@ -157,28 +164,37 @@ def instances():
     T("c01_remove_n8", "c01::remove::<8>(false)", 8, props=C1)
     T("c01_remove_entry_n8", "c01::remove::<8>(true)", 8, be=G8, props=C1)
     T("c01_remove_n16", "c01::remove::<16>(false)", 16, be=G8, props=C1, timeout=1800)
-    T("c01_try_insert_n8", "c01::try_insert::<8, 8>(4, 0)", 8, items=4, be=G8, props=C1)
+    T("c01_try_insert_n8", "c01::try_insert::<8, 8>(4, 0)", 8, items=4, be=G8, props=C1, tier="thorough", timeout=10800, mem_gb=40)
     for form, fn_ in enumerate(("or_insert", "and_modify", "entry_ref", "occ_vac_insert", "or_insert_with_key", "or_default")):
-        T("c01_entry_%s_n8" % fn_, "c01::entry::<8, 8>(4, 0, %d)" % form, 8, items=4, be=G8 if form else BOTH, props=("C01", "C14", "C18"), share_quick=("C14",) if form in (0, 2, 3) else ())
-    T("c01_entry_or_insert_n4_full", "c01::entry::<4, 8>(3, 0, 0)", 4, n2=8, items=3, be=G8, props=("C01", "C14"), covers="some", share_quick=("C14",))
+        # HashMap::entry(K) followed by VacantEntry::insert does not finish under CBMC (the merged value
+        # of the Entry enum makes every access through its table pointer a case split, DESIGN section 12):
+        # thorough tier only; the same insert path is decided in the quick tier through entry_ref (form 2),
+        # raw_entry_mut and rustc_entry (c14_*), and entry()'s Occupied paths through c14_map_occ_*
+        T("c01_entry_%s_n8" % fn_, "c01::entry::<8, 8>(4, 0, %d)" % form, 8, items=4, be=G8 if form != 2 else BOTH, props=("C01", "C14", "C18"),
+          share_quick=("C14",) if form == 2 else (), tier="quick" if form == 2 else "thorough", timeout=900 if form == 2 else 10800, mem_gb=14 if form == 2 else 40)
+    T("c01_entry_ref_n4_full", "c01::entry::<4, 8>(3, 0, 2)", 4, n2=8, items=3, be=G8, props=("C01", "C14"), covers="some", share_quick=("C14",))
+    T("c01_entry_or_insert_n4_full", "c01::entry::<4, 8>(3, 0, 0)", 4, n2=8, items=3, be=G8, props=("C01", "C14"), covers="some", tier="thorough", timeout=10800, mem_gb=40)
     T("c01_retain_n8", "c01::retain::<8>()", 8, props=("C01", "C10", "C18"), share_quick=('C18', 'C10'))
-    T("c01_retain_n16", "c01::retain::<16>()", 16, be=G8, props=("C01", "C10"), timeout=1800)
+    T("c01_retain_n16", "c01::retain::<16>()", 16, be=G8, props=("C01", "C10"), timeout=10800, tier="thorough", mem_gb=30)
     T("c01_clear_n8", "c01::clear_reserve_shrink::<8, 8>(SYM, SYM, 0, 0)", 8, be=G8, props=C1)
     T("c01_reserve_n8", "c01::clear_reserve_shrink::<8, 16>(2, 0, 1, 6)", 8, n2=16, items=2, be=G8, props=C1)
     T("c01_shrink_to_n16", "c01::clear_reserve_shrink::<16, 8>(2, 0, 2, 5)", 16, n2=8, items=2, be=G8, props=C1)
     T("c01_shrink_to_fit_n8", "c01::clear_reserve_shrink::<8, 4>(2, 0, 3, 0)", 8, n2=4, items=2, be=G8, props=C1)
-    T("c01_extend2_n8", "c01::extend2::<8, 8>(3, 0)", 8, items=3, be=G8, props=C1, timeout=1500)
+    T("c01_extend2_n8", "c01::extend2::<8, 8>(3, 0)", 8, items=3, be=G8, props=C1, timeout=10800, tier="thorough", mem_gb=40)
     T("c01_base_case", "c01::base_case()", 4, n2=4, items=1, be=G8, props=C1)
     # ------------------------------------------------------------------ C10 retain / extract_if / drain
     C10 = ("C10", "C18")
     T("c10_retain_n8", "c10::table_retain::<8>()", 8, props=C10, covers="some")
-    T("c10_retain_n16", "c10::table_retain::<16>()", 16, be=G8, props=C10, timeout=1800)
+    T("c10_retain_n16", "c10::table_retain::<16>()", 16, be=G8, props=C10, timeout=14400, tier="thorough", mem_gb=44)
     T("c10_retain_n32s", "c10::table_retain::<32>()", 32, be=S16, props=C10, tier="thorough", timeout=3600)
-    T("c10_extract_if_n8", "c10::table_extract_if::<8>()", 8, props=C10, covers="some")
-    T("c10_extract_if_n16", "c10::table_extract_if::<16>()", 16, be=G8, props=C10, timeout=1800, covers="some")
-    T("c10_map_extract_if_n8", "c10::map_extract_if::<8>()", 8, be=G8, props=C10)
+    T("c10_extract_if_n4", "c10::table_extract_if::<4>()", 4, props=C10, covers="some")
+    T("c10_extract_if_n8", "c10::table_extract_if::<8>()", 8, props=C10, covers="some", tier="thorough", timeout=10800, mem_gb=40)
+    T("c10_extract_if_n16", "c10::table_extract_if::<16>()", 16, be=G8, props=C10, timeout=14400, covers="some", tier="thorough", mem_gb=44)
+    T("c10_map_extract_if_n4", "c10::map_extract_if::<4>()", 4, be=G8, props=C10)
+    T("c10_map_extract_if_n8", "c10::map_extract_if::<8>()", 8, be=G8, props=C10, tier="thorough", timeout=10800, mem_gb=40)
     for w, wn in enumerate(("retain", "extract_if", "drain")):
-        T("c10_set_%s_n8" % wn, "c10::set_ops::<8>(%d)" % w, 8, be=G8, props=("C10", "C07"), share_quick=("C07",) if w == 0 else ())
+        nn = 4 if w == 1 else 8
+        T("c10_set_%s_n%d" % (wn, nn), "c10::set_ops::<%d>(%d)" % (nn, w), nn, be=G8, props=("C10", "C07"), share_quick=("C07",) if w == 0 else ())
     # ------------------------------------------------------------------ C02 layouts, ZST, leaked guards
     OPS = ("insert", "remove", "iterate", "drain", "clone", "into_iter", "insert_grow", "retain", "shrink")
     for ty, tn, quick_ops in (("u16", "u16", (0, 6)), ("u64", "u64", (1, 4)), ("[u64; 3]", "u64x3", (0, 3, 6)), ("sym::Al32", "al32", (0, 1, 2, 6)), ("sym::Big", "big200", (0, 5, 6))):
@@ -201,17 +217,20 @@ def instances():
     for op, on in enumerate(("drop", "remove", "clear", "retain", "extract_if", "drain", "into_iter", "shrink0", "remove_reinsert")):
         if on == "shrink0":
             continue
-        T("c03_%s_n8" % on, "c03::ledger_op::<8>(%d)" % op, 8, be=G8, props=("C03", "C02"))
+        nn = 4 if on == "extract_if" else 8
+        T("c03_%s_n%d" % (on, nn), "c03::ledger_op::<%d>(%d)" % (nn, op), nn, be=G8, props=("C03", "C02"))
     T("c03_drop_n16", "c03::ledger_op::<16>(0)", 16, be=G8, props=("C03",))
     T("c03_drain_n16", "c03::ledger_op::<16>(5)", 16, be=G8, props=("C03",), tier="thorough")
-    T("c03_into_iter_n4s", "c03::ledger_op::<4>(6)", 4, be=S16, props=("C03",))
+    T("c03_into_iter_n8s", "c03::ledger_op::<8>(6)", 8, be=S16, props=("C03",))
     T("c03_grow_n8", "c03::ledger_resize::<8, >(2, 0, 0, 6)".replace("<8, >", "<8>"), 8, n2=16, items=2, be=G8, props=("C03", "C08"))
     T("c03_shrink_n8", "c03::ledger_resize::<8>(2, 0, 1, 0)", 8, n2=4, items=2, be=G8, props=("C03", "C08"))
     T("c03_shrink_empty_n8", "c03::ledger_resize::<8>(0, 0, 1, 0)", 8, items=0, be=G8, props=("C03", "C08"))
     T("c03_insert_grow_n4", "c03::ledger_resize::<4>(3, 0, 2, 0)", 4, n2=8, items=3, be=G8, props=("C03",))
     T("c03_no_block_when_unused", "c03::no_block_when_unused()", 4, be=ANY, props=("C03", "C08"))
     # ------------------------------------------------------------------ C15 multi-key borrows
-    DUP = ["duplicate keys found"]
+    # the documented panic of get_many_mut (Kani replaces the formatted message by a placeholder):
+    # an assertion-class failure located in RawTable::get_many_mut itself, nothing else
+    DUP = [r"^assertion\|hashbrown::raw::RawTable::<[^|]*>::get_many_mut::<[^|]*>\|(This is a placeholder message|duplicate keys found)"]
     T("c15_table_dup_n8_k2", "c15::table_many::<8, 2>(0)", 8, props=("C15",), allow_fail=DUP, covers="some")
     T("c15_table_dup_n8_k3", "c15::table_many::<8, 3>(0)", 8, be=G8, props=("C15",), allow_fail=DUP, covers="some")
     T("c15_table_distinct_n8_k3", "c15::table_many::<8, 3>(1)", 8, be=G8, props=("C15",), covers="some")
@@ -228,7 +247,7 @@ def instances():
     # ------------------------------------------------------------------ C12 try_reserve
     for ty, tn in (("()", "zst"), ("u8", "u8"), ("u32", "u32"), ("[u64; 3]", "u64x3"), ("sym::Al32", "al32"), ("c12::Huge", "huge61"), ("c12::Huge60", "huge60")):
         T("c12_overflow_all_%s" % tn, "c12::overflow_all::<%s>()" % ty, 4, props=("C12", "C17"), be=BOTH if tn in ("zst", "u32", "huge61") else G8,
-          bounds="all 2^64 values of additional; element type %s" % ty)
+          bounds="all 2^64 values of additional; element type %s" % ty, covers="some" if tn.startswith("huge") else "all")
     T("c12_fail_unchanged_n4_grow", "c12::fail_unchanged::<4, 8>(3, 0, 1)", 4, n2=8, items=3, be=G8, props=("C12",))
     T("c12_fail_unchanged_n8_grow", "c12::fail_unchanged::<8, 16>(2, 0, 6)", 8, n2=16, items=2, be=G8, props=("C12",))
     T("c12_fail_unchanged_n8_big", "c12::fail_unchanged::<8, 32>(2, 0, 20)", 8, n2=32, items=2, be=S16, props=("C12",))
@@ -238,7 +257,8 @@ def instances():
     T("c08_no_alloc_insert_n8", "c08::no_alloc_insert::<8>(6, 0)", 8, items=6, be=G8, props=("C08", "C13"))
     T("c08_no_alloc_insert_n16", "c08::no_alloc_insert::<16>(5, 8)", 16, items=5, be=G8, props=("C08", "C13"))
     for (n, it, m) in ((8, 2, 0), (8, 0, 0), (8, 0, 3), (8, 5, 2), (16, 2, 5), (16, 0, 7), (16, 9, 100)):
-        T("c08_shrink_n%d_i%d_m%d" % (n, it, m), "c08::shrink_contract::<%d>(%d, 0, %d)" % (n, it, m), n, items=it, be=G8 if (n, it, m) != (8, 2, 0) else BOTH, props=("C08",))
+        n2 = {(8, 2, 0): 4, (16, 2, 5): 8}.get((n, it, m))
+        T("c08_shrink_n%d_i%d_m%d" % (n, it, m), "c08::shrink_contract::<%d>(%d, 0, %d)" % (n, it, m), n, n2=n2, items=it, be=G8 if (n, it, m) != (8, 2, 0) else BOTH, props=("C08",))
     T("c13_growth_bound_all", "c08::growth_bound_all()", 4, props=("C13", "C08"), bounds="all tables 2^2..2^55 buckets, all item counts, all element sizes")
     # ------------------------------------------------------------------ C05 broken Hash/Eq
     for op, on in enumerate(("find", "remove", "insert", "entry", "retain", "iter_hash")):
@@ -280,7 +300,7 @@ def instances():
           allow_fail=["new value is not equivalent"] if op == 6 else [])
     T("c07_elem_replace_n4_full", "c07::elem_ops::<4, 8>(3, 0, 1)", 4, n2=8, items=3, be=G8, props=("C07",))
     # ------------------------------------------------------------------ C11 clone / clone_from / ==
-    T("c11_clone_n8", "c11::clone_step::<8>(true)", 8, props=("C11", "C03"))
+    T("c11_clone_n8", "c11::clone_step::<8>(true)", 8, props=("C11", "C03"), be_quick=G8)
     T("c11_clone_n8_src_mut", "c11::clone_step::<8>(false)", 8, be=G8, props=("C11", "C03"))
     T("c11_clone_n16", "c11::clone_step::<16>(true)", 16, be=G8, props=("C11",), timeout=1800)
     for (nt, ns) in ((8, 8), (8, 4), (4, 8), (8, 1), (16, 8)):
